@@ -27,13 +27,13 @@ static void run() {
                 if ((int)(idx++ % (uint64_t)a.nworkers) != a.worker) continue;
                 std::vector<ops::Op> seq; uint64_t x = code; for (int i = 0; i < len; i++) { seq.push_back(A[x % 9]); x /= 9; }
                 Case c; c.set("ops", ops::to_hex(seq)); c.set("inject", 0); c.set("gen", "exhaustive<=5"); set_current(c);
-                std::string m = oracle(c); done++; if (!m.empty()) { record_failure(c, m); return; }
+                std::string m = oracle(c); done++; if (!m.empty() && enum_fail(c, m)) return;
             } }
         W().ev.enumerated["all sequences of length <= 5 over 9 fixed-argument operations (66429)"] += done;
     }
     if (a.part == "exhaustive") return;
     seqgen::Weights wt{{inject_ok ? 2 : 0, 4, 10, 8, 8, 8, 8, 8, 4, 4, 4, 5, 1, 3}};
-    rc_run("c13-sequences", a.n(15000, 150000), 100, [&]() {
+    rc_run("c13-sequences", a.n(25000, 150000), 100, [&]() {
         int maxlen = *rc::gen::element(8, 20, 60, a.thorough() ? 200 : 60);
         auto seq = *seqgen::sequence(wt, maxlen);
         Case c; c.set("ops", ops::to_hex(seq)); c.set("inject", inject_ok ? 1 : 0); c.set("gen", "random-walk"); set_current(c);
